@@ -89,7 +89,7 @@ Proof. exact StInstanceProofs.op_levels_table. Qed.
 Theorem C01_declarations_faithful : forall w00 fb w0 nm (bl : list (DeclProofs.swb token)) w1 (l : StStmtProofs.sl token) w2 en w3,
   StExprProofs.all_triv token StInstance.tok_class w00 -> t_kind fb = KFunctionBlock ->
   StExprProofs.all_triv token StInstance.tok_class w0 -> t_kind nm = KIdentifier ->
-  Forall (DeclProofs.wf_wb token StInstance.tok_class) bl ->
+  Forall (DeclProofs.wf_wb token StInstance.tok_class t_text StInstance.tok_num) bl ->
   StExprProofs.all_triv token StInstance.tok_class w1 ->
   StStmtProofs.wf_l token StInstance.tok_class t_text StInstance.tok_num StInstance.op_level true l ->
   StExprProofs.all_triv token StInstance.tok_class w2 -> t_kind en = KEndFunctionBlock ->
@@ -101,7 +101,7 @@ Theorem C01_declarations_faithful : forall w00 fb w0 nm (bl : list (DeclProofs.s
 Proof. exact DeclInstanceProofs.parse_fbd_spelled. Qed.
 
 (* the sequence of blocks alone, with an explicit fuel bound *)
-Theorem C01_declaration_blocks : forall (l : list (DeclProofs.swb token)), Forall (DeclProofs.wf_wb token StInstance.tok_class) l ->
+Theorem C01_declaration_blocks : forall (l : list (DeclProofs.swb token)), Forall (DeclProofs.wf_wb token StInstance.tok_class t_text StInstance.tok_num) l ->
   forall acc rest f, DeclProofs.no_block_next token StInstance.tok_class rest -> (DeclProofs.size_wbs token l + 1 <= f)%nat ->
   DeclParser.blocks token StInstance.tok_class t_text StInstance.tok_num StInstance.ty_name f acc (DeclProofs.flat_wbs token l ++ rest) =
   DeclParser.DOk (acc ++ flat_map (DeclProofs.erase_wb token StInstance.tok_class t_text StInstance.tok_num StInstance.ty_name) l, rest).
@@ -132,7 +132,7 @@ Proof. exact LibProofs.parse_lib2_spelled. Qed.
 
 (* one TYPE block, at any fuel that covers its size, whatever follows it *)
 Theorem C01_type_block_faithful : forall b rest F,
-  TypeProofs.wf_tb token StInstance.tok_class StInstance.is_int_ty b -> (TypeProofs.size_tb token b <= F)%nat ->
+  TypeProofs.wf_tb token StInstance.tok_class t_text StInstance.tok_num StInstance.is_int_ty b -> (TypeProofs.size_tb token b <= F)%nat ->
   DeclParser.type_block token StInstance.tok_class t_text StInstance.tok_num StInstance.ty_name StInstance.is_int_ty F
     (TypeProofs.flat_tb token b ++ rest) =
   DeclParser.DOk (TypeProofs.erase_tb token StInstance.tok_class t_text StInstance.tok_num StInstance.ty_name b, rest).
